@@ -100,11 +100,17 @@ class C18(Check):
         parties.append(FwdTicker(rs["tick"], cfg))
         parties.append(actors.Operator(rs["oper"], cfg))
         parties.append(Sibling(rs["sib"], cfg))
-        weights = {"sibling": r.choice([0.0, 0.0, 0.5, 1.5]), "importer": 3.0, "editor": r.choice([0.3, 1.0, 2.0]), "reader": r.choice([0.0, 0.1, 0.4]), "admin": r.choice([0.0, 0.1]), "ticker": r.choice([1.0, 2.5]), "operator": r.choice([0.0, 0.05])}
+        from checks.c06 import Rejected
+
+        parties.append(Rejected(rs["rej"], cfg, buckets))
+        weights = {"rejected": r.choice([0.0, 0.0, 0.3]), "sibling": r.choice([0.0, 0.0, 0.5, 1.5]), "importer": 3.0, "editor": r.choice([0.3, 1.0, 2.0]), "reader": r.choice([0.0, 0.1, 0.4]), "admin": r.choice([0.0, 0.1]), "ticker": r.choice([1.0, 2.5]), "operator": r.choice([0.0, 0.05])}
         nsteps = r.choice([3, 5, 8, 15, 30, 60] + ([120, 240] if tier == "thorough" else []))
         sched = [s for s in actors.schedule(rs["sched"], parties, weights, nsteps) if s["op"] != "new_datastore"]
         steps += sched
-        return {"backend": "sqlite", "steps": steps, "lat": lat, "clock": clock, "tz_off_min": r.choice([0, 0, -300, 180, 330, -720])}
+        return {"backend": "sqlite", "steps": steps, "lat": lat, "clock": clock, "tz_off_min": r.choice([0, 0, -300, 180, 330, -720]),
+                # the simulated present lies before or after the real one (a clock value captured at import time
+                # of the code under test is then in the simulated future or past)
+                "clock0": r.choice([1_700_000_000_000_000, 2_000_000_000_000_000])}
 
     def start(self, world, run):
         if run.get("real_clock"):
